@@ -492,6 +492,7 @@ def execute(scn, L):
     m = Model(main)
     accepted = []
     decisions = []
+    later_rejections = []
     nrej = 0
     acc_after_rej = False
     inflight = None
@@ -528,6 +529,10 @@ def execute(scn, L):
         if c['outcome'] == 'raise':
             nrej += 1
             decisions.append('r')
+
+            if nrej > 1:
+                # (rejected after an earlier rejection: see (5) below)
+                later_rejections.append((c['i'], len(accepted), c.get('exc')))
 
             if c['wrote'] != 0 or c['nwrites'] != 0:
                 out.violate('C09.rejected-call-wrote', '%s:%s' % (
@@ -598,6 +603,39 @@ def execute(scn, L):
                     {'offset': k, 'with_rejected_calls': data[max(0, k - 30):
                                                               k + 30],
                      'accepted_only': tdata[max(0, k - 30):k + 30]})
+
+    # (5) what a rejected call reports: a call that is rejected after
+    # earlier rejected calls raises the same error (type and text) as on a
+    # fresh writer that was only ever given the accepted calls before it -
+    # the earlier rejected calls left no trace
+    if not out.violations and not faults:
+        for idx, nacc, exc in later_rejections[-2:]:
+            if '$object' in repr(ops[idx]) or '0x' in str((exc or {}).get(
+                    'msg')):
+                continue        # (messages that may hold an address)
+
+            probe = dict(spec, id='PROBE', file='probe',
+                         ops=copy.deepcopy(accepted[:nacc] + [ops[idx]]))
+            probe.pop('shadow', None)
+            w3, pa = run_writer(scn, L, probe, [])
+            out.absorb(w3)
+            last = pa.calls[-1] if pa.calls else None
+
+            if last is None or last['i'] != nacc:
+                continue
+
+            out.probe('rejection_message_compared')
+            pexc = last.get('exc') or {}
+
+            if last['outcome'] != 'raise':
+                out.violate('C09.twin-decision', 'probe:%s' %
+                            ops[idx]['op'], {'index': idx})
+            elif exc and (pexc.get('type') != exc.get('type') or
+                          pexc.get('msg') != exc.get('msg')):
+                out.violate('C09.rejection-depends-on-rejected-calls',
+                            ops[idx]['op'],
+                            {'index': idx, 'with_earlier_rejections': exc,
+                             'fresh_writer': pexc})
 
     if nrej:
         out.probe('runs_with_rejections')
